@@ -245,6 +245,13 @@ func isExactInt64(num reflect.Value, f float64) bool {
 
 // equal returns true when lhsV and rhsV is same value.
 func equal(lhsV, rhsV reflect.Value) bool {
+	// a nil pointer, map, slice, channel or function is nil also when it comes out of an interface
+	if lhsV.Kind() == reflect.Interface && !lhsV.IsNil() {
+		lhsV = lhsV.Elem()
+	}
+	if rhsV.Kind() == reflect.Interface && !rhsV.IsNil() {
+		rhsV = rhsV.Elem()
+	}
 	lhsIsNil, rhsIsNil := isNil(lhsV), isNil(rhsV)
 	if lhsIsNil && rhsIsNil {
 		return true
